@@ -522,7 +522,7 @@ int fp12_test_cyc(const fp12_t a) {
 		fp12_mul(t0, t0, a);
 		fp12_frb(t1, a, 2);
 
-		result = ((fp12_cmp(t0, t1) == RLC_EQ) ? 1 : 0);
+		result = ((fp12_cmp(t0, t1) == RLC_EQ && !fp12_is_zero(a)) ? 1 : 0);
 	}
 	RLC_CATCH_ANY {
 		RLC_THROW(ERR_CAUGHT);
